@@ -76,6 +76,76 @@ def generate(ctx):
         ctx.add('object_delete@%s %s 61' % (pre, e), meta=('err', v))
         ctx.add('object_pick@%s %s 61' % (pre, e), meta=('err', v))
         ctx.add('delete_by_keypath@%s %s i0' % (pre, e), meta=('err', v))
+    edit2_malformed(ctx)          # edit2 block below
+
+
+# ---- BEGIN edit2 (EditWalk2.v: object_insert / object_delete / object_pick / strip_nulls / delete_by_keypath) ----
+# The byte walkers on buffers that are NOT valid encodings (prefixes, one byte changed).  C06 says nothing about them;
+# the stream ties the offset-faithful models of EditWalk2.v (reads, slices, early returns, Err vs panic) to the code.
+# The code allocates `ArrayBuilder::new(count)` / `VecDeque::with_capacity(count)` with counts read from the buffer, so
+# a mutation never produces a large count on purpose: bytes are changed to 0..3 or to a tag byte only, and byte 1 of
+# the document header is left alone (no `abort:` outcome was ever observed with these mutations).
+EDIT2_TAG_BYTES = [0x80, 0x40, 0x20, 0x60, 0x00, 0x10, 0x30, 0x50]
+
+
+def edit2_mutations(r, e):
+    muts = [e[:i] for i in range(len(e))] if len(e) <= 48 else [e[:r.randrange(len(e))] for _ in range(14)]
+    for _ in range(16):
+        i = r.randrange(len(e))
+        if i == 1:
+            continue
+        nb = r.choice([0, 1, 2, 3, e[i] ^ 1 if e[i] < 4 else 0] + EDIT2_TAG_BYTES) if i != 0 else r.choice([0x80, 0x40, 0x20, 0x00, 0x60])
+        if nb != e[i]:
+            muts.append(e[:i] + bytes([nb]) + e[i + 1:])
+    return muts
+
+
+def edit2_malformed(ctx):
+    r = ctx.rng
+    small = [v for v in ctx.ds if len(gen.enc(v)) <= 140]
+    for v in r.sample(small, min(len(small), ctx.scale(140, 3000))):
+        e = gen.enc(v)
+        ks = common.key_variants(ctx, v)
+        kps = common.keypaths_for(ctx, v, n=3)
+        w = r.choice(small)
+        we = gen.hexarg(gen.enc(w))
+        for m in edit2_mutations(r, e):
+            h = gen.hexarg(m)
+            pre = r.choice(['', '', '', '@c0ffee'])            # a non-empty caller buffer now and then
+            ctx.add('strip_nulls%s %s' % (pre, h), kind='malformed')
+            ctx.add('delete_by_keypath%s %s %s' % (pre, h, common.keypath_text(r.choice(kps))), kind='malformed')
+            sub = r.sample(ks, min(len(ks), r.choice([0, 1, 2])))
+            ctx.add('%s %s %s' % (r.choice(['object_delete', 'object_pick']), h, gen.hexlist(sub)), kind='malformed')
+            k = r.choice(ks)
+            if r.random() < 0.7:
+                ctx.add('object_insert %s %s %s %d' % (h, gen.hexarg(k), we, r.randrange(2)), kind='malformed')
+            else:
+                ctx.add('object_insert %s %s %s %d' % (we, gen.hexarg(k), h, r.randrange(2)), kind='malformed')
+
+    # objects whose key run is not strictly sorted (duplicates, descending): the builders are ordered maps, the walkers
+    # find positions by comparing keys, and delete_by_keypath shares one key-path queue between all levels
+    N, one, two = ('n',), ('u', 1), ('u', 2)
+    inner = ('o', [(b'x', one), (b'y', N)])
+    arr = ('a', [one, inner, N])
+    odd = [('o', [(b'a', one), (b'a', two)]), ('o', [(b'b', one), (b'a', two)]), ('o', [(b'a', inner), (b'a', arr)]),
+           ('o', [(b'a', arr), (b'a', inner), (b'b', N)]), ('o', [(b'c', N), (b'a', arr), (b'b', inner), (b'a', N)]),
+           ('a', [('o', [(b'k', inner), (b'k', arr)]), N]), ('o', [(b'k', ('o', [(b'x', arr), (b'x', inner)])), (b'k', one)]),
+           ('o', [(b'b', N), (b'b', N), (b'a', N)]), ('o', [(b'a', ('a', [inner, inner])), (b'a', ('a', [arr, one]))])]
+    okeys = [b'', b'a', b'aa', b'b', b'c', b'k', b'x', b'0']
+    okps = [[('n', b'a')], [('n', b'a'), ('i', 0)], [('n', b'a'), ('i', 1), ('n', b'x')], [('n', b'a'), ('n', b'x')], [('n', b'k'), ('n', b'x')],
+            [('n', b'k'), ('n', b'x'), ('i', -2), ('n', b'y')], [('i', 0), ('n', b'k'), ('n', b'y')], [('i', 0), ('n', b'k'), ('i', 1)],
+            [('n', b'a'), ('i', -1)], [('n', b'a'), ('i', 0), ('n', b'x')], [('n', b'b')], [('n', b'a'), ('i', 1), ('i', 1), ('n', b'y')]]
+    for v in odd:
+        h = gen.hexarg(gen.enc(v))
+        ctx.add('strip_nulls %s' % h, kind='malformed')
+        for kp in okps:
+            ctx.add('delete_by_keypath %s %s' % (h, common.keypath_text(kp)), kind='malformed')
+        for k in okeys:
+            for upd in (0, 1):
+                ctx.add('object_insert %s %s %s %d' % (h, gen.hexarg(k), gen.hexarg(gen.enc(one)), upd), kind='malformed')
+            ctx.add('object_delete %s %s' % (h, gen.hexlist([k])), kind='malformed')
+            ctx.add('object_pick %s %s' % (h, gen.hexlist([k, b'b'])), kind='malformed')
+# ---- END edit2 ----
 
 
 def safe_mutations(r, e):
@@ -138,6 +208,8 @@ def normalise_outcome(c, o):
 
 def judge(ctx):
     for c in ctx.cases:
+        if c.kind == 'malformed':
+            continue          # corrupt buffers only feed the model/implementation diff
         o = ctx.impl.get(c.id, 'missing')
         m = c.meta
         if c.kind == 'malformed':
